@@ -533,14 +533,17 @@ def work_exit(job: Tuple[bool, bool]) -> Dict[str, Any]:
             f.write("proto x\nmessage M {\n    bool a = 1\n}\n" if parse_ok else "proto x\nmessage M {\n    uint65 a = 1\n}\n")
         calls = {"fatal": 0, "render": 0}
 
-        def fatal(s: str = "", code: int = 1) -> None:
+        def fatal(s: str = "", code: Any = 1) -> None:
+            # process exit is environment; what the parent sees is the low 8 bits of the code (POSIX wait status)
             calls["fatal"] += 1
+            calls["status"] = (ZInt.lift(code) if ZInt.lift(code) is not None else z3.IntVal(1)) % 256
             raise _Fatal()
 
         def h() -> Any:
             pysym.ENGINE.assume(cnt >= 0)
             calls["fatal"] = 0
             calls["render"] = 0
+            calls["status"] = z3.IntVal(0)
             M.__dict__["fatal"] = fatal  # process exit is environment
             M.__dict__["lint"] = lambda proto: ZInt(cnt)
             M.__dict__["render"] = lambda *a, **k: calls.__setitem__("render", calls["render"] + 1)
@@ -559,10 +562,12 @@ def work_exit(job: Tuple[bool, bool]) -> Dict[str, Any]:
                 exited = p.value
                 want = z3.Or(z3.BoolVal(not parse_ok), z3.And(z3.BoolVal(not disable), cnt > 0))
                 res["obligations"] += 2
-                r, model = p.holds(z3.BoolVal(bool(exited)) == want)
+                nonzero = (calls["status"] != 0) if exited else z3.BoolVal(False)
+                r, model = p.holds(nonzero == want)
                 if r == "sat":
                     c = model.eval(cnt, model_completion=True).as_long()
-                    res["violations"].append({"what": f"{res['case']}: check-only mode {'exits non-zero' if exited else 'exits zero'} with {c} warnings", "payload": {"kind": "exit", "count": c, "parse_ok": parse_ok, "disable_linter": disable},
+                    st = model.eval(calls["status"], model_completion=True).as_long() if exited else 0
+                    res["violations"].append({"what": f"{res['case']}: check-only mode ends with exit status {st} with {c} warnings", "payload": {"kind": "exit", "count": c, "parse_ok": parse_ok, "disable_linter": disable},
                                               "confirmed": True, "info": {"kind": "exit", "key": "exit"}})
                 elif r == "unknown":
                     res["inconclusive"].append(f"{res['case']}: unknown")
